@@ -63,6 +63,8 @@ type variablesMappingVisitor struct {
 	mapping               map[string]string
 	variables             []*variableItem
 	operationRef          int
+	// reserved holds the names of variable definitions which are not remapped
+	reserved map[string]struct{}
 }
 
 type variableItem struct {
@@ -72,6 +74,19 @@ type variableItem struct {
 }
 
 func (v *variablesMappingVisitor) LeaveDocument(operation, definition *ast.Document) {
+	// Variable definitions that keep their name (Upload variables, and definitions that are no longer
+	// used as a direct argument value, e.g. after the literal using them was extracted) reserve it:
+	// handing such a name out to another variable would leave two definitions with one name.
+	v.reserved = make(map[string]struct{})
+	if v.operationRef < len(v.operation.OperationDefinitions) {
+		for _, ref := range v.operation.OperationDefinitions[v.operationRef].VariableDefinitions.Refs {
+			name := v.operation.VariableValueNameString(v.operation.VariableDefinitions[ref].VariableValue.Ref)
+			if !slices.ContainsFunc(v.variables, func(i *variableItem) bool { return i.variableName == name }) {
+				v.reserved[name] = struct{}{}
+			}
+		}
+	}
+
 	for _, variableItem := range v.variables {
 		mappingName := v.generateUnusedVariableMappingName()
 		v.mapping[string(mappingName)] = variableItem.variableName
@@ -182,7 +197,8 @@ func (v *variablesMappingVisitor) generateUnusedVariableMappingName() []byte {
 				out[k] = alphabet[j]
 			}
 			_, exists := v.mapping[string(out)]
-			if !exists {
+			_, reserved := v.reserved[string(out)]
+			if !exists && !reserved {
 				return out
 			}
 		}
